@@ -239,6 +239,16 @@ func c03Notations(r *Run) {
 			c.one("ReasonMap", rm, l, lerr, func(w io.Writer) error { return primitive.WriteReasonMap(rm, w) }, nil)
 		}
 	}
+	// reason maps with endpoints of both address families, in both orders
+	v4, v6 := net.IPv4(10, 0, 0, 1).To4(), net.ParseIP("fd00::1")
+	for _, eps := range [][]net.IP{{v4, v6}, {v6, v4}, {v4, v6, v4}, {v6, v6, v4}, {v4, v4}} {
+		var rm []*primitive.FailureReason
+		for i, ep := range eps {
+			rm = append(rm, &primitive.FailureReason{Endpoint: ep, Code: primitive.FailureCode(i)})
+		}
+		l, lerr := primitive.LengthOfReasonMap(rm)
+		c.one("ReasonMap", rm, l, lerr, func(w io.Writer) error { return primitive.WriteReasonMap(rm, w) }, nil)
+	}
 	r.Evals = c.count
 	r.Probes["notation_triples_checked"] += c.count
 	r.Nontrivial = true
